@@ -15,7 +15,7 @@ import os
 import subprocess
 import sys
 
-DRIVER = os.path.join(os.path.dirname(os.path.abspath(__file__)), "..", "ocaml", "driver")
+DRIVER = os.path.join(os.path.dirname(os.path.abspath(__file__)), "..", "ocaml", "rundriver")
 
 
 # ------------------------------------------------------------------ implementation side (child)
